@@ -143,4 +143,112 @@ theorem run_out (cfg : Cfg) (hg : cfg.Good) (w : WN) (snaps : List Raw) (raw : R
       · simp [hlt]; omega
       · simp [hlt]
 
+/-- every counter tuple in the snapshot has width `w` (psutil: 9 for disks, 8 for NICs) -/
+def RawW (w : Nat) (r : Raw) : Prop := ∀ kv ∈ r, kv.2.length = w
+
+def OpW (w : Name → Nat) : Op → Prop
+  | .call n _ raw => RawW (w n) raw ∧ NodupKeys raw
+  | _ => True
+
+/-- state invariant: each function's `WN` matches its own snapshot list -/
+structure InvSt (w : Name → Nat) (s : St) (sn : Name → List Raw) : Prop where
+  inv : ∀ n, Inv (s.get n) (sn n)
+  width : ∀ n, ∀ r ∈ sn n, RawW (w n) r
+
+theorem get_set_same (s : St) (n : Name) (x : WN) : (s.set n x).get n = x := by
+  cases n <;> rfl
+
+theorem get_set_other (s : St) (n m : Name) (x : WN) (h : m ≠ n) : (s.set n x).get m = s.get m := by
+  cases n <;> cases m <;> first | rfl | exact absurd rfl h
+
+theorem slot_good (c : Cfg) (hg : c.Good) (n : Name) : slot c n = n := by
+  simp [slot, hg.2.2]
+
+theorem widthMismatch_false {w : Nat} {old raw : Raw} (ho : RawW w old) (hr : RawW w raw) :
+    widthMismatch old raw = false := by
+  unfold widthMismatch
+  rw [List.any_eq_false]
+  intro kv hm
+  cases hl : old.lookup kv.1 with
+  | none => simp
+  | some o =>
+    have h1 := ho _ (mem_of_lookup hl)
+    have h2 := hr _ hm
+    simp only [decide_eq_true_eq]
+    simp only at h1
+    omega
+
+/-- one step of the implementation model keeps the invariant w.r.t. one step of the spec -/
+theorem step_inv (c : Cfg) (hg : c.Good) (w : Name → Nat) (s : St) (sn : Name → List Raw)
+    (op : Op) (hw : OpW w op) (hi : InvSt w s sn) :
+    InvSt w (step c s op).1 (fun n => snapsStep n (sn n) op) := by
+  have hslot := slot_good c hg
+  obtain ⟨he, _, _⟩ := hg
+  cases op with
+  | clearAll =>
+    refine ⟨fun n => ?_, fun n r hr => by simp [snapsStep] at hr⟩
+    cases n <;> exact inv_init
+  | clear m =>
+    refine ⟨fun n => ?_, fun n r hr => ?_⟩
+    · by_cases h : m = n
+      · subst h; simp only [step, hslot, snapsStep, if_true, get_set_same]; exact inv_init
+      · have h' : n ≠ m := fun e => h e.symm
+        simp only [step, hslot, snapsStep, h, if_false, get_set_other _ _ _ _ h']
+        exact hi.inv n
+    · by_cases h : m = n
+      · subst h; simp [snapsStep] at hr
+      · simp only [snapsStep, h, if_false] at hr; exact hi.width n r hr
+  | call m nowrap raw =>
+    obtain ⟨hwr, hnd⟩ := hw
+    cases nowrap with
+    | false =>
+      have hst : (step c s (.call m false raw)).1 = s := by
+        simp only [step]; split <;> simp
+      rw [hst]
+      refine ⟨fun n => ?_, fun n r hr => ?_⟩
+      · simpa [snapsStep] using hi.inv n
+      · simp only [snapsStep, Bool.false_eq_true, and_false, if_false] at hr
+        exact hi.width n r hr
+    | true =>
+      have hrun : (step c s (.call m true raw)).1 = s.set m (run c (s.get m) raw).1 := by
+        simp only [step, he, hslot, Bool.and_self, Bool.not_true, Bool.and_false,
+          Bool.false_eq_true, if_false, if_true]
+        cases hc : (s.get m).cache with
+        | none => simp
+        | some old =>
+          have hhead : (sn m).head? = some old := by rw [← (hi.inv m).cache]; exact hc
+          have hold : RawW (w m) old := hi.width m old (List.mem_of_mem_head? hhead)
+          simp [widthMismatch_false hold hwr]
+      rw [hrun]
+      refine ⟨fun n => ?_, fun n r hr => ?_⟩
+      · by_cases h : m = n
+        · subst h
+          simp only [get_set_same, snapsStep, and_self, if_true]
+          exact run_inv c ⟨he, ‹_›, ‹_›⟩ _ _ raw (hi.inv m)
+        · have h' : n ≠ m := fun e => h e.symm
+          simp only [get_set_other _ _ _ _ h', snapsStep, h, false_and, if_false]
+          exact hi.inv n
+      · by_cases h : m = n
+        · subst h
+          simp only [snapsStep, and_self, if_true, List.mem_cons] at hr
+          cases hr with
+          | inl e => rw [e]; exact hwr
+          | inr hr => exact hi.width m r hr
+        · simp only [snapsStep, h, false_and, if_false] at hr
+          exact hi.width n r hr
+
+theorem runAll_inv (c : Cfg) (hg : c.Good) (w : Name → Nat) (h : List Op) :
+    ∀ (s : St) (sn : Name → List Raw), (∀ op ∈ h, OpW w op) → InvSt w s sn →
+      InvSt w (runAll c s h) (fun n => h.foldl (snapsStep n) (sn n)) := by
+  induction h with
+  | nil => intro s sn _ hi; exact hi
+  | cons op ops ih =>
+    intro s sn hw hi
+    simp only [runAll, List.foldl_cons]
+    exact ih _ _ (fun o ho => hw o (by simp [ho])) (step_inv c hg w s sn op (hw op (by simp)) hi)
+
+theorem init_inv (w : Name → Nat) : InvSt w St.init (fun _ => []) :=
+  ⟨fun n => by cases n <;> exact inv_init, fun n r hr => by cases hr⟩
+
+
 end Psutil.C10
